@@ -499,3 +499,14 @@ mod tests {
         assert_eq!(get_bits(&f, 20, 32), id13(5, 6, 1, 1));
     }
 }
+
+/// Squawk (four octal digits as a decimal number ABCD) of a 13-bit identity field.
+pub fn squawk_of_id13(id: u64) -> u32 {
+    let b = |k: u32| ((id >> (12 - k)) & 1) as u32; // k = 0 is the first bit (C1)
+    let (c1, a1, c2, a2, c4, a4, _x, b1, d1, b2, d2, b4, d4) = (b(0), b(1), b(2), b(3), b(4), b(5), b(6), b(7), b(8), b(9), b(10), b(11), b(12));
+    let a = a4 * 4 + a2 * 2 + a1;
+    let bb = b4 * 4 + b2 * 2 + b1;
+    let c = c4 * 4 + c2 * 2 + c1;
+    let d = d4 * 4 + d2 * 2 + d1;
+    a * 1000 + bb * 100 + c * 10 + d
+}
